@@ -1,0 +1,14 @@
+//go:build verif
+
+package input
+
+import "github.com/streadway/amqp"
+
+// VerifSetDelivery lets the verification harness (build tag verif) act as the
+// amqp connector: it installs the delivery channel and the two closables that
+// a connector must initialize.
+func (a *Amqp) VerifSetDelivery(delivery <-chan amqp.Delivery, conn, channel Closable) {
+	a.delivery = delivery
+	a.conn = conn
+	a.channel = channel
+}
